@@ -296,7 +296,9 @@ Definition spec_record (bs : bytes) (hdr limit off : N) : option (bytes * N * N)
   let nl := get32 t 8 mod 16777216 in
   if (nl =? 0) || (4096 <? nl) then None else
   let sz := rec_size nl in
-  if limit <? off + sz then None else
+  (* the record's own bytes end at or before the limit; the limit itself need not be
+     a multiple of 32 (v1: "the byte offset of the end of counter records") *)
+  if limit <? off + 16 + nl then None else
   if 16384 - 32 <? off mod 16384 + sz then None else
   Some (slice t 16 nl, get32 t 12, get64 t 0).
 
@@ -368,7 +370,6 @@ Definition spec_read (bs : bytes)
           let size := len bs in
           let limit := get32 bs (hdr + c_limitOff) in
           if negb ((size mod 16384 =? 0) && (16384 <=? size) && (limit <=? size)
-                   && (limit mod 32 =? 0)
                    && ((limit =? 0) || (first_off hdr <=? limit)))
           then None else
           match map_opt (fun ih => spec_bucket bs hdr limit (fst ih) (snd ih))
@@ -406,8 +407,9 @@ Definition spec_place (cur n : N) : N :=
 Definition spec_insert (hdr : N) (bs : bytes) (c : bytes * N) : bytes :=
   let '(name, v) := c in
   let limit0 := get32 bs (hdr + c_limitOff) in
-  let cur := if limit0 =? 0 then (first_off hdr + 32 - 1) / 32 * 32
-             else limit0 in
+  (* the next record starts at the first multiple of 32 at or after the end of the
+     records so far (the limit need not be one) *)
+  let cur := ((if limit0 =? 0 then first_off hdr else limit0) + 32 - 1) / 32 * 32 in
   let n := rec_size (len name) in
   let s := spec_place cur n in
   let e := s + n in
